@@ -124,6 +124,9 @@ func c10System(c *sim.Case) {
 		}
 		wg.Wait()
 	}
+	if lag := sim.RedisPumpLag(); lag > 300*time.Millisecond {
+		c.Skip(fmt.Sprintf("machine too loaded for real-time verdicts (redis pump lagged %v)", lag))
+	}
 	nt := 0
 	for i, s := range all {
 		if s.viol != "" {
